@@ -36,6 +36,17 @@ func instance() *gostatsd.Instance {
 	return &gostatsd.Instance{ID: "i-abc", Tags: gostatsd.Tags{"region:r1", "dup"}}
 }
 
+// instanceOf: lookup outcome 1 is an instance with tags, 3 an instance that has an id but no tags, 2 nothing.
+func instanceOf(outcome int) *gostatsd.Instance {
+	switch outcome {
+	case 1:
+		return instance()
+	case 3:
+		return &gostatsd.Instance{ID: "i-abc"}
+	}
+	return nil
+}
+
 // ---- recording backend
 type evBackend struct {
 	name  string
@@ -74,11 +85,8 @@ type cache struct {
 
 func (c *cache) Peek(s gostatsd.Source) (*gostatsd.Instance, bool) {
 	vsched.Access(c.r.tableObj, false, "peek")
-	switch c.r.table {
-	case 1:
-		return instance(), true
-	case 2:
-		return nil, true
+	if c.r.table != 0 {
+		return instanceOf(c.r.table), true
 	}
 	return nil, false
 }
@@ -137,7 +145,7 @@ func sbody(c scfg, r *run) func(*vsched.Exec) {
 		}))
 		var head gostatsd.PipelineHandler = statsd.NewTagHandler(bh, append(gostatsd.Tags{}, static...), nil)
 		if c.Cloud {
-			r.outcome = 1 + vsched.Choose(2, "lookup-outcome")
+			r.outcome = 1 + vsched.Choose(3, "lookup-outcome")
 			if vsched.Choose(2, "initially-cached") == 1 {
 				r.table = r.outcome
 			}
@@ -149,11 +157,7 @@ func sbody(c scfg, r *run) func(*vsched.Exec) {
 					s := vsched.Recv(ca.ipSink)
 					vsched.Access(r.tableObj, true, "complete")
 					r.table = r.outcome
-					var inst *gostatsd.Instance
-					if r.outcome == 1 {
-						inst = instance()
-					}
-					vsched.Send(ca.info, gostatsd.InstanceInfo{IP: s, Instance: inst})
+					vsched.Send(ca.info, gostatsd.InstanceInfo{IP: s, Instance: instanceOf(r.outcome)})
 				}
 			})
 			head = ch
@@ -220,9 +224,9 @@ func wantEvent(line string, cloud int) (gostatsd.Event, bool) {
 	for _, t := range e.Tags {
 		set[t] = true
 	}
-	if cloud == 1 {
-		w.Source = instance().ID
-		for _, t := range instance().Tags {
+	if inst := instanceOf(cloud); inst != nil {
+		w.Source = inst.ID
+		for _, t := range inst.Tags {
 			set[t] = true
 		}
 	}
